@@ -61,10 +61,23 @@ def cfg_val(v: Any) -> str:
     return str(v)
 
 
+class Def(str):
+    """a constant given as a TLA+ expression: rendered as `K <- K_def` (pass defs to run.tlc)"""
+
+
+def split_defs(constants: dict):
+    """-> (constants with Def values replaced by markers, defs dict for run.tlc)"""
+    defs = {f"{k}_def": str(v) for k, v in constants.items() if isinstance(v, Def)}
+    return defs
+
+
 def make_cfg(constants: dict, invariants=(), properties=(), spec="Spec", emit=True, view="View",
              constraint=None, action_constraint=None, extra="") -> str:
     lines = [f"SPECIFICATION {spec}", "CONSTANTS"]
     for k, v in constants.items():
+        if isinstance(v, Def):
+            lines.append(f" {k} <- {k}_def")
+            continue
         lines.append(f" {k} = {cfg_val(v)}")
     for i in invariants:
         lines.append(f"INVARIANT {i}")
